@@ -93,6 +93,20 @@ Example C15_example :
   /\ length (d_heap st) = 17.
 Proof. vm_compute. repeat split; reflexivity. Qed.
 
+(* the "lazy copy" shape — no Copy for a set's lone handler — is refuted: the lone foreground handler
+   (thread 0) gets the parsed line itself, overwrites Args[0], sets a tag and rewrites a scalar field;
+   the background handler (thread 1) that starts afterwards copies the edited line: its entry value
+   is not the parsed event, and the parsed line has been written *)
+Theorem C15_lazy_copy_refuted :
+  let lone := fun i => Nat.eqb i 0 in
+  let v0 := {| v_scal := [[110]; []; []; [115]; [67]; [114]]%N; v_args := [[97]; [98]]%N; v_tags := Some [([107]%N, [118]%N)] |} in
+  let st := run_lazy lone (fun m => m) 2
+              (dinit ex_heap [[WSetArg 0 [88]%N; WSetTag [107]%N [33]%N; WSetScal 4 [69]%N]; []]) [0; 0; 0; 0; 1] in
+  read_line ex_heap 2 = Ok v0 /\ d_fault st = false /\ length (entries st) = 2
+  /\ C15_ok v0 (entries st) = false
+  /\ read_line (d_heap st) 2 <> Ok v0.
+Proof. vm_compute. repeat split; try reflexivity. discriminate. Qed.
+
 Print Assumptions tie_C15.
 Print Assumptions C15_copy_deep.
 Print Assumptions C15_equal.
@@ -100,3 +114,4 @@ Print Assumptions C15_separate.
 Print Assumptions C15_noninterference.
 Print Assumptions C15_ok_says.
 Print Assumptions C15_example.
+Print Assumptions C15_lazy_copy_refuted.
